@@ -123,6 +123,11 @@ func (v *Verifier) VerifyFunction(key string) {
 		}
 		fc.ghostVars[g.Name] = SV{T: v.c.Const(fc.short+".ghost."+g.Name, so), GoT: gt}
 	}
+	if spec.Structural {
+		v.funcCtxs[key] = fc
+		v.checkWired(fc)
+		return
+	}
 	fc.indexAllocs(fn)
 	v.funcCtxs[key] = fc
 	st := newState()
@@ -1724,4 +1729,99 @@ func derefNamed(t types.Type) (*types.Named, bool) {
 	}
 	n, ok := t.(*types.Named)
 	return n, ok
+}
+
+// checkWired decides the `wired` clauses of a `structural` contract over the SSA of the function: the named argument of the named call
+// is - possibly boxed into an interface - the address of a local variable (or the variable's value) that is assigned exactly once,
+// from the result of a call of the named source function. No solver is involved: the obligation's goal is the constant outcome.
+func (v *Verifier) checkWired(fc *FuncCtx) {
+	c := v.c
+	calleeName := func(com *ssa.CallCommon) string {
+		if com.IsInvoke() {
+			return com.Method.FullName()
+		}
+		if f, ok := com.Value.(*ssa.Function); ok {
+			if f.Origin() != nil {
+				return f.Origin().String()
+			}
+			return f.String()
+		}
+		return ""
+	}
+	strip := func(x ssa.Value) ssa.Value {
+		for {
+			switch t := x.(type) {
+			case *ssa.MakeInterface:
+				x = t.X
+			case *ssa.ChangeInterface:
+				x = t.X
+			case *ssa.ChangeType:
+				x = t.X
+			default:
+				return x
+			}
+		}
+	}
+	for _, w := range fc.spec.Wired {
+		ok, why := false, "no such call"
+		n := 0
+		for _, b := range fc.fn.Blocks {
+			for _, ins := range b.Instrs {
+				call, isCall := ins.(ssa.CallInstruction)
+				if !isCall || !strings.HasSuffix(calleeName(call.Common()), w.Callee) {
+					continue
+				}
+				n++
+				if n != w.Nth {
+					continue
+				}
+				args := call.Common().Args
+				if w.Arg < 0 || w.Arg >= len(args) {
+					why = "no such argument"
+					continue
+				}
+				x := strip(args[w.Arg])
+				if u, isLoad := x.(*ssa.UnOp); isLoad && u.Op == token.MUL {
+					x = u.X // the value of a variable: trace the variable
+				}
+				a, isAlloc := x.(*ssa.Alloc)
+				if !isAlloc {
+					why = fmt.Sprintf("the argument is not a local variable (or its address): %s", x)
+					continue
+				}
+				stores, src := 0, ""
+				if refs := a.Referrers(); refs != nil {
+					for _, r := range *refs {
+						if s, isStore := r.(*ssa.Store); isStore && s.Addr == a {
+							stores++
+							val := strip(s.Val)
+							if ex, isEx := val.(*ssa.Extract); isEx {
+								val = ex.Tuple
+							}
+							if sc, isSrc := val.(*ssa.Call); isSrc {
+								src = calleeName(sc.Common())
+							} else {
+								src = val.String()
+							}
+						}
+					}
+				}
+				switch {
+				case stores != 1:
+					why = fmt.Sprintf("variable %s is assigned %d times", a.Comment, stores)
+				case !strings.HasSuffix(src, w.Source):
+					why = fmt.Sprintf("variable %s is assigned from %s", a.Comment, src)
+				default:
+					ok, why = true, fmt.Sprintf("argument %d is variable %s, assigned once from %s", w.Arg, a.Comment, src)
+				}
+			}
+		}
+		goal := c.Bool(true)
+		if !ok {
+			goal = c.Bool(false)
+		}
+		v.addObligation(&Obligation{Name: fc.short + "#wired." + w.Label, Kind: "structural", Func: fc.key, Goal: goal, Expect: "unsat",
+			Src: fmt.Sprintf("wired %s: %s#%d arg %d from %s", w.Label, w.Callee, w.Nth, w.Arg, w.Source), Note: "structural (SSA data flow, no solver reasoning): " + why})
+	}
+	v.notes[fc.key+": structural contract - the function is not executed symbolically; only the wired clauses are checked over its SSA"] = true
 }
